@@ -171,6 +171,45 @@ def check_slate(run, ir, spec, names, s0, s1, nv, fb, ow):
 # databox operations
 # ------------------------------------------------------------------------------------------
 
+def check_slate_extend(run, ir, spec, names, s0, s1, add):
+    """Dataslate.add_periods_to_end(n): the slate grows by n periods AFTER its end; going back to a databox returns the tags at their
+    periods and nothing in the added ones"""
+    key = f"slate_extend:names={names}:span={s0}..{s1}:add={add}"
+    case = dict(kind="slate_extend", names=list(names), s0=s0, s1=s1, add=add)
+    db, syms = _box(ir, spec)
+    span = _qq(ir, s0) >> _qq(ir, s1)
+    with S.Path() as path:
+        ds = ir.Dataslate.from_databox(db, names, span, num_variants=1)
+        ds.add_periods_to_end(add)
+    ncol = ds._variants[0].data.shape[1]
+    periods = tuple(ds.periods)
+    want_periods = tuple(_qq(ir, k) for k in range(s0, s1 + add + 1))
+    if len(periods) != ncol or periods != want_periods:
+        run.counterexample(key, "dataslate:add_periods_to_end", f"after adding {add} periods the slate has {ncol} data columns but periods {[str(p) for p in periods]} (expected {[str(p) for p in want_periods]})",
+                           dict(case, values={}))
+        return
+    item = {s_[0]: s_ for s_ in spec}
+    with S.Path() as path2:
+        back = ds.to_databox()
+    asks = []
+    for name in names:
+        cells = cellmap(back[name])
+        for k in range(s0 - 1, s1 + add + 2):
+            want = _input_cell(item[name], k, 0) if s0 <= k <= s1 else None
+            st, eq = _eq_cell(cells.get((B0 + k, 0)), want, syms)
+            if st == "bad":
+                run.counterexample(key, "dataslate:add_periods_to_end", f"{name}[{k}] comes back as {str(cells.get((B0 + k, 0)))[:40]} instead of {want}", dict(case, values={}))
+                return
+            if st == "ask":
+                asks.append(eq)
+    if asks:
+        r, m = run.prove(key, z3.And(*asks), [path.condition(), path2.condition()], timeout_ms=30000)
+        if r != "unsat":
+            run.counterexample(key, "dataslate:add_periods_to_end", "a tagged cell changed", dict(case, values={})) if r == "sat" else run.unknown(key, f"solver {r}")
+            return
+    run.ok(key)
+
+
 SPEC1 = [("a", "series", 0, 4, 1, (1,)), ("b", "series", 1, 3, 2, ()), ("c", "scalar", 3.5), ("d", "series", -1, 3, 1, ())]
 SPEC2 = [("a", "series", 2, 4, 1, ()), ("b", "series", -1, 3, 2, (1,)), ("c", "scalar", 4.5), ("z", "series", 0, 2, 1, ())]
 
@@ -440,6 +479,14 @@ def main(run):
                 run.unknown(f"slate:{args[2:]}", exc)
             except Exception as exc:
                 run.error(f"slate:{args[2:]}", exc)
+        base_spec_ = _slate_specs("quick")[0][0]
+        for (s0_, s1_, add_) in ((0, 2, 1), (-1, 1, 2), (0, 3, 0)) + (((1, 1, 3),) if run.tier == "thorough" else ()):
+            try:
+                check_slate_extend(run, ir, base_spec_, ("a", "b", "c", "d"), s0_, s1_, add_)
+            except S.SymbolicBranchError as exc:
+                run.unknown(f"slate_extend:{s0_}..{s1_}+{add_}", exc)
+            except Exception as exc:
+                run.error(f"slate_extend:{s0_}..{s1_}+{add_}", exc)
         for (name, f, o) in db_ops(ir):
             try:
                 check_db_op(run, ir, name, f, o)
@@ -501,8 +548,30 @@ def replay(case):
                         if (w is None) != (gcell is None) or (w is not None and abs(gcell - w) > 1e-12):
                             return True, f"to_databox {name}[{k}] variant {v}: {gcell!r} vs {w!r}"
             return False, "slate and databox agree with the input"
+        if case["kind"] == "slate_extend":
+            spec = [s_ for s_ in _slate_specs("quick")[0][0]]
+            names, s0, s1, add = tuple(case["names"]), case["s0"], case["s1"], case["add"]
+            db, syms = _box(ir, spec)
+            ds = ir.Dataslate.from_databox(db, names, _qq(ir, s0) >> _qq(ir, s1), num_variants=1)
+            ds.add_periods_to_end(add)
+            ncol = ds._variants[0].data.shape[1]
+            periods = tuple(ds.periods)
+            want_periods = tuple(_qq(ir, k) for k in range(s0, s1 + add + 1))
+            if len(periods) != ncol or periods != want_periods:
+                return True, f"{ncol} data columns, periods {[str(p) for p in periods]}, expected {[str(p) for p in want_periods]}"
+            item = {s_[0]: s_ for s_ in spec}
+            back = ds.to_databox()
+            for name in names:
+                cells = cellmap(back[name])
+                for k in range(s0 - 1, s1 + add + 2):
+                    w = _input_cell(item[name], k, 0) if s0 <= k <= s1 else None
+                    w = syms[w[1]][2] if isinstance(w, tuple) else w
+                    gcell = cells.get((B0 + k, 0))
+                    if (w is None) != (gcell is None) or (w is not None and abs(gcell - w) > 1e-12):
+                        return True, f"to_databox {name}[{k}]: {gcell!r} vs {w!r}"
+            return False, "extended slate agrees with the input"
         for (name, f, o) in db_ops(ir):
-            if name == case["op"]:
+            if name == case.get("op"):
                 db, s1 = _box(ir, SPEC1)
                 other = ir.Databox()
                 for (n, kind, *a) in SPEC2:
